@@ -455,7 +455,7 @@ var inlineExternals = map[string]bool{
 }
 
 var pureExternalPrefixes = []string{"fmt.Sprintf", "fmt.Sprint", "fmt.Errorf", "fmt.Fprintf", "fmt.Printf", "fmt.Println", "log.Printf", "log.Println", "log.Print",
-	"(*log.Logger).", "strconv.Itoa", "strings.Repeat", "slices.Contains",
+	"(*log.Logger).", "strconv.Itoa", "strings.Repeat",
 	// the sorted map of go-sortedmap is an opaque library object: its observers return arbitrary values
 	"(*github.com/tobshub/go-sortedmap.SortedMap[K, V]).Map", "(*github.com/tobshub/go-sortedmap.SortedMap[K, V]).Keys"}
 
